@@ -31,7 +31,10 @@ func runC01(c *Ctx) {
 		return
 	}
 	ruleBlockShape(c, p)
+	ruleVectoredEquiv(c, p, "C01.vectored")
 	ruleKeyWidth(c, p)
+	ruleDict(c, p, "C01.dict")
+	ruleRebuild(c, p, "C01.rebuild")
 	ruleForward(c, p)
 	c.R.Assumptions = append(c.R.Assumptions,
 		"decided: append-only encoders, agreement of encoder / vectored writer / decoder on sequence and width of what is on the wire in every build configuration and revision, LowCardinality key width and per-width key columns, state/prepare forwarding of wrappers; not decided: equality of decoded and encoded values for all inputs")
